@@ -75,11 +75,15 @@ def analyse_walk(ctx: Ctx) -> Walk:
     mains = [p for p in top if p.exit[0] == "return" and loops(p)]
     ctx.require(len(mains) >= 1, f"{EXEC}: no returning path through a loop")
     main = mains[0]
-    lps = loops(main)
-    ctx.require(len(lps) == 1 and lps[0].loopkind == "while", f"{EXEC}: expected exactly one while-loop (the matching walk)")
+    lps = [l for l in loops(main) if l.loopkind == "while"]
+    ctx.require(len(lps) == 1, f"{EXEC}: expected exactly one while-loop (the matching walk)")
     loop = lps[0]
-    # the fill call after the loop
-    fills = [e for e in calls(main, into_loops=False) if calls_target(e, "Market._execute_orders")]
+    # the fill call after the walk: in a comprehension / map over the pending list, or in a for-loop over it
+    after = main.events[main.events.index(loop) + 1:]
+    fills = [e for e in after if e.kind == "call" and calls_target(e, "Market._execute_orders")]
+    for fl in [e for e in after if e.kind == "loop" and e.loopkind == "for"]:
+        for bp in fl.paths:
+            fills.extend(e for e in calls(bp, into_loops=False) if calls_target(e, "Market._execute_orders") and e.node not in [x.node for x in fills])
     ctx.require(len(fills) == 1, f"{EXEC}: expected exactly one call site of _execute_orders after the walk, found {len(fills)}")
     fill = fills[0]
     var: Dict[str, str] = {}
